@@ -1857,10 +1857,10 @@ class Data(BaseCartesianData):
         if isinstance(data, categorical_ndarray):
             data = data.codes
 
-        if axis is None and mask is None:
+        if axis is None and mask is None and statistic in ('minimum', 'maximum', 'mean', 'median'):
             # Since we are just finding overall statistics, not along axes, we
-            # can remove any broadcasted dimension since these should not affect
-            # the statistics.
+            # can remove any broadcasted dimension since these do not affect
+            # these statistics (this is not true for the sum and percentiles).
             data = unbroadcast(data)
 
         if random_subset and data.size > random_subset:
